@@ -205,7 +205,14 @@ def generate(rng: random.Random, tier: str) -> dict:
         if op["op"] == "PROJECT_OPTIMIZE" and rng.random() < 0.15:
             # another process optimises the same result name start to end while this one is still computing
             op["overlap"] = True
-    return {"engine": NAME, "kind": "history", "ops": ops, "real_optimize": rng.random() < 0.15, "two_handles": two_handles}
+    return {
+        "engine": NAME,
+        "kind": "history",
+        "ops": ops,
+        "real_optimize": rng.random() < 0.15,
+        "two_handles": two_handles,
+        "odd_dir": rng.random() < 0.3,
+    }
 
 
 # ---------------------------------------------------------------------------
@@ -389,6 +396,9 @@ class Run:
         self.rec = core.Recorder(PROP)
         _COUNTER[0] += 1
         self.sandbox = os.path.join(core.scratch_root(), "fssim", f"{os.getpid()}-{_COUNTER[0]}")
+        if plan.get("odd_dir"):
+            # the whole tree lives below a folder whose name has glob metacharacters and a space
+            self.sandbox = os.path.join(self.sandbox, "measurements [2024] v?")
         self.cells = set()
 
     def execute(self):
@@ -410,6 +420,8 @@ class Run:
             builtins.open = _REAL_OPEN
             io.open = _REAL_IO_OPEN
             shutil.rmtree(self.sandbox, ignore_errors=True)
+            if self.plan.get("odd_dir"):
+                shutil.rmtree(os.path.dirname(self.sandbox), ignore_errors=True)
 
     # -- phase A -------------------------------------------------------------
     def prepare_target(self, cell_dir, rel_target, state):
@@ -668,7 +680,7 @@ class Run:
         import glob
 
         for pattern in ("models/m.yml", "parameters/m_parameters.*", "data/dataset_1.nc"):
-            for path in glob.glob(os.path.join(self.proj_dir, pattern)):
+            for path in glob.glob(os.path.join(glob.escape(self.proj_dir), pattern)):
                 os.remove(path)
         project.import_data(make_dataset(), dataset_name="dataset_1")
         project.generate_model("m", "decay_parallel", {"nr_compartments": 1, "irf": False})
